@@ -10,12 +10,19 @@ Four streams, all seeded:
      the monotonic / wall / perf clocks have unrelated epochs (uptime 0 .. 460 days).  Oracle: the teardown comes
      back, within the period the real-process stream grants, and nobody who is not about to leave is left alive.
      Every join/kill with its timeout is compared with Net.Teardown.reap_t (check_teardown).
+     Round 5: ALL THREE phases of the teardown are timed.  1..8 workers, waves of dead workers: a shutdown request to a
+     worker whose process is gone costs the linger of its socket; the fake shm server holds 0..200 segments, acknowledges
+     the shutdown request at once and exits 0 ms .. 7 s later, having unlinked them -- killed before that, they stay.
+     Oracle: a terminated executor whose shm server was not SIGKILLed by an injected fault has left no segment.
+     The join/kill calls on the shm server and the total time are compared with Net.Teardown.teardown_t.
   B  real entrypoint.execute_sequence + runner.run over generated task sequences (ok / raise / sys.exit,
      single and generator outputs); compared with Net.Executor.execute_sequence; oracle: no silent failure.
   C  real Bridge.recv_events / Bridge.shutdown over scripted batches; compared with Net.Executor.recv_events.
   D  REAL processes (harness/c05_faults.py): one cluster per scenario, a fault injected at a crash point,
      deadlines on run() and on the teardown; oracle = the property read literally; each observation is also
-     checked against the model's verdict (ExecutorCheck.check_scenario).
+     checked against the model's verdict (ExecutorCheck.check_scenario).  Round 5: scenarios whose teardown is long
+     (a worker that does not leave; a wave of 6..7 dead workers on one host) run on hosts that hold extra datasets in
+     shared memory, with a shm server whose at-exit sweep takes 0.3 s (seam replaced in the launcher).
 """
 from __future__ import annotations
 
@@ -35,6 +42,8 @@ TRUSTED = [
     "enumeration on real processes (harness/c05_faults.py), with deadlines and a serial re-run of any suspicious outcome",
     "fake child processes / listener / sender / shm client used to drive the real Executor and Bridge methods in-process; "
     "the `time` module seen by cascade.executor.executor is replaced by views of one fake clock",
+    "real-process scenarios with `sweep_delay`: cascade.shm.dataset.Manager.atexit is wrapped (in the launcher, before the shm server "
+    "is forked) to sleep 0.3 s before the real sweep -- stands for a host with many / large segments",
 ]
 ASSUMPTIONS = [
     "delivery: what an executor sends with to_controller is contained in a batch the controller reads (C06's property); "
@@ -45,8 +54,13 @@ ASSUMPTIONS = [
     "and the heartbeat bookkeeping of Bridge.recv_events are not modelled",
     "a worker process has exited, or leaves a given time after it was asked to (0 = idle, longer = inside a task), or never reads "
     "another message; Process.join(timeout) as in CPython 3.12 (None waits for ever, <= 0 polls, more than INT_MAX ms raises "
-    "OverflowError, a known exit code returns at once); time passes only while the executor waits (Net/Teardown.v); sending the "
-    "shutdown requests takes no time; Net/Executor.v's `Stuck` = needs longer than the grace period (C05_terminate_is_timed)",
+    "OverflowError, a known exit code returns at once); time passes only while the executor waits (Net/Teardown.v): in join, and in "
+    "callback() for the linger of its socket (1 s) when the addressed worker's process is gone -- a shutdown request to a live or an "
+    "unreachable worker takes no time; Net/Executor.v's `Stuck` = has not left when the deadline of the worker phase comes "
+    "(C05_terminate_is_timed, C05_teardown_is_terminate)",
+    "the shm server answers the ShutdownCommand before it unlinks its segments (shm/server.py), gets through that sweep in a finite "
+    "time of its own (number/size of segments, disk clean-up) and then exits; a SIGKILL before that leaves segments; a server that "
+    "never finishes (`SWedged`) has not died and is outside the property (the code would wait for it for ever)",
     "the monotonic and the wall clock advance at the same rate during a teardown (no clock step), their epochs are unrelated",
     "SIGTERM to the shm server runs its handler (segments unlinked), SIGKILL does not; modelled by EvShmDies Term/Kill",
 ]
@@ -64,6 +78,8 @@ class _Stop(BaseException):
 
 GRACE_MS = 5000            # cascade.executor.executor.worker_shutdown_grace_s, in the model's unit (Net/Teardown.grace)
 BUSY_MS = [1, 100, 2000, 4999, 5000, 5001, 20000, 3600000]
+LINGER_MS = 1000           # cascade.executor.comms: ZMQ_LINGER of the socket callback() sends with (Net/Teardown.linger)
+SWEEP_MS = [0, 1, 1, 3, 40, 40, 900, 4999, 5000, 5001, 7000]        # shm server: from its Ok to the ShutdownCommand to its exit
 MONO0_MS = [0, 500, 1234500, 1234500, 2600000000, 40000000000]      # uptimes from "just booted" to beyond INT_MAX ms
 WALL0_MS = [1790000000000, 1790000000000, 1790000000000, 1000000000000, 100000]
 
@@ -104,19 +120,28 @@ def _gen_worker_trouble(rng, n):
 
 
 def gen_exec_case(rng):
-    n = rng.choice([1, 2, 2, 3, 4])
+    n = rng.choice([1, 2, 2, 3, 4, 4, 6, 8])
     ns = [w for w in range(n) if rng.random() < 0.04]
     evs = []
     pub = []
     mono0 = rng.choice(MONO0_MS)
     wall0 = mono0 + 3 if rng.random() < 0.05 else rng.choice(WALL0_MS)
-    case = {"n": n, "ns": ns, "evs": evs, "mono0": mono0, "wall0": wall0, "shm_race": rng.random() < 0.05}
-    if rng.random() < 0.35:
-        # teardown-focused: some workers are busy / stuck / unreachable, then something ends the executor
+    case = {"n": n, "ns": ns, "evs": evs, "mono0": mono0, "wall0": wall0, "shm_race": rng.random() < 0.05,
+            # what the host's shm server holds, and how long it takes from acknowledging a shutdown to its exit
+            "shm_segs": rng.choice([0, 1, 1, 3, 3, 12, 200]), "shm_sweep": rng.choice(SWEEP_MS)}
+    if rng.random() < 0.4:
+        # teardown-focused: some workers are busy / stuck / unreachable / dead (one, or a wave of them), then
+        # something ends the executor
         for _ in range(rng.randint(0, 2)):
             evs.append(["batch", _gen_msgs(rng, n, pub), False])
-        for _ in range(rng.randint(1, n + 1)):
-            evs.append(_gen_worker_trouble(rng, n))
+        r = rng.random()
+        if r < 0.3:
+            # a wave: several workers die at the same moment (OOM killer, cgroup limit, kill -9 of the job step)
+            for w in rng.sample(range(n), rng.randint(1, n)):
+                evs.append(["wdies", w, rng.choice([-9, -9, -9, 1, -15])])
+        if r > 0.2:
+            for _ in range(rng.randint(1, min(n, 4) + 1)):
+                evs.append(_gen_worker_trouble(rng, n))
         r = rng.random()
         if r < 0.4:
             evs.append(["batch", _gen_msgs(rng, n, pub)[:2] + [["shutdown"]], False])
@@ -223,6 +248,7 @@ def drive_exec(case):
     host = "h0"
     cur: list = []
     joins: list = []
+    shm_calls: list = []
     clock = FakeClock(int(case.get("mono0", 1234500)), int(case.get("wall0", 1790000000000)))
     ftime = FakeTime(clock)
 
@@ -231,12 +257,17 @@ def drive_exec(case):
             self.role, self.idx = role, idx
             self._exitcode, self.pid, self.alive, self.stuck, self.asked = None, 4242, True, False, False
             self.deaf, self.leave, self.asked_at = False, 0, None
+            # shm server: segments it holds, time from acknowledging a shutdown to its exit, killed by an injected fault
+            self.segs, self.sweep, self.fault_killed = 0, 0, False
 
         def _settle(self):
             # a worker that was asked to leave does so when its time has come, whether somebody waits for it or not
             if (self.alive and self.role == "w" and self.asked and not self.stuck and not self.deaf
                     and clock.now >= self.asked_at + self.leave):
                 self.alive, self._exitcode = False, 0
+            # so does the shm server, once it is through its sweep
+            if self.alive and self.role == "shm" and self.asked and clock.now >= self.asked_at + self.sweep:
+                self.alive, self._exitcode, self.segs = False, 0, 0
 
         @property
         def exitcode(self):
@@ -259,15 +290,23 @@ def drive_exec(case):
                 except (OverflowError, ValueError):
                     t = 2 ** 62
                 joins.append(("join", self.idx, t))
+            if self.role == "shm":
+                try:
+                    t = None if timeout is None else int(max(-1, min(2 ** 62, round(timeout * 1000))))
+                except (OverflowError, ValueError):
+                    t = 2 ** 62
+                shm_calls.append(("sjoin", t))
             ms = poll_timeout_ms(timeout)       # raises what CPython raises for a timeout poll(2) cannot take
             leaves_at = None
             if self.role == "w" and self.asked and not self.stuck and not self.deaf:
                 leaves_at = self.asked_at + self.leave
             elif self.role == "shm" and self.asked:
-                leaves_at = clock.now
+                leaves_at = self.asked_at + self.sweep      # it has acknowledged; now it unlinks what it holds, then exits
             if leaves_at is not None and (ms is None or leaves_at <= clock.now + ms):
                 clock.now = max(clock.now, leaves_at)
                 self.alive, self.exitcode = False, 0
+                if self.role == "shm":
+                    self.segs = 0
             elif ms is None:
                 raise _Hang(f"join() without timeout of the live {self.role}{'' if self.idx is None else self.idx} which is not going to exit")
             else:
@@ -282,17 +321,37 @@ def drive_exec(case):
             cur.append(("KillWorker", self.idx) if self.role == "w" else ("KillDs",) if self.role == "ds" else ("KillShm",))
             if self.role == "w":
                 joins.append(("kill", self.idx))
+            if self.role == "shm" and self.alive:
+                shm_calls.append(("skill",))        # SIGKILL: whatever it has not unlinked yet stays in /dev/shm
             self.alive, self.exitcode = False, -9
+
+        def terminate(self):
+            # SIGTERM: a worker / the data server dies of it; the shm server's handler runs its sweep first
+            self._settle()
+            cur.append(("TermWorker", self.idx) if self.role == "w" else ("TermDs",) if self.role == "ds" else ("TermShm",))
+            if not self.alive:
+                return
+            if self.role == "shm":
+                if not self.asked:
+                    self.asked, self.asked_at = True, clock.now
+            else:
+                self.alive, self.exitcode = False, -15
 
         def die(self, code):
             if self.alive:
                 self.alive, self.exitcode = False, code
+                if self.role == "shm":
+                    if code == -9:
+                        self.fault_killed = True     # injected SIGKILL: the open finding, not this stream's subject
+                    else:
+                        self.segs = 0                # SIGTERM handler / own exit: Manager.atexit runs
 
     n = case["n"]
     wids = [WorkerId(host, f"w{i}") for i in range(n)]
     procs = {w: (None if i in case["ns"] else Proc("w", i)) for i, w in enumerate(wids)}
     addr2w = {ex.worker_address(w): i for i, w in enumerate(wids)}
     shm, ds = Proc("shm"), Proc("ds")
+    shm.segs, shm.sweep = int(case.get("shm_segs", 0)), int(case.get("shm_sweep", 0))
     hb = [False]
 
     def dsid(d):
@@ -307,6 +366,11 @@ def drive_exec(case):
         if isinstance(m, M.WorkerShutdown):
             cur.append(("ToWorker", w, "WShutdown"))
             if p is not None:
+                if not p.alive:
+                    # nobody will ever take the message: closing the socket blocks for its linger period
+                    # (only the teardown is timed, so only its message carries the cost)
+                    clock.now += LINGER_MS
+                    return
                 if p.deaf:
                     raise OSError("injected: the worker's socket cannot be reached")
                 if not p.asked:
@@ -360,9 +424,10 @@ def drive_exec(case):
             cur.append(("ShmShutdown",))
             if case.get("shm_race") and shm.alive:
                 # the server died between the is_alive() test and the request
-                shm.alive, shm.exitcode = False, -9
+                shm.alive, shm.exitcode, shm.fault_killed = False, -9, True
                 raise ConnectionRefusedError(111, "injected: shm server gone")
-            shm.asked = True
+            if shm.alive and not shm.asked:
+                shm.asked, shm.asked_at = True, clock.now      # Ok comes back at once; the sweep starts now
 
     batch = [None]
 
@@ -439,8 +504,10 @@ def drive_exec(case):
                 hb[0] = bool(e[2])
                 batch[0] = [mk(m) for m in e[1]]
                 snapshot = [[w, tstat(p)] for w, p in enumerate(procs.values())]
+                shm_snapshot = (["holds", shm.segs, shm.sweep] if shm.is_alive() and not shm.asked and not case.get("shm_race") else ["gone"])
                 t_before, mono_before = clock.now, clock.mono0 + clock.now
                 del joins[:]
+                del shm_calls[:]
                 hang = None
                 try:
                     E.recv_loop()
@@ -461,7 +528,8 @@ def drive_exec(case):
                 batch[0] = None
                 if not was_term and E.terminating:
                     teardown = {"event": i, "t0": t_before, "mono": mono_before, "workers": snapshot, "calls": [list(j) for j in joins],
-                                "elapsed": None if hang else clock.now - t_before}
+                                "elapsed": None if hang else clock.now - t_before,
+                                "shm": shm_snapshot, "shm_calls": [list(j) for j in shm_calls], "segs_left": None}
                     if hang:
                         problems.append(("teardown-hangs", f"event {i}: the teardown never comes back: {hang}; workers were {snapshot}"))
                     elif clock.now - t_before > F.EXIT_GRACE_S * 1000:
@@ -526,6 +594,15 @@ def drive_exec(case):
                                  f"(workers at the teardown: {teardown and teardown['workers']}, calls: {teardown and teardown['calls']}, "
                                  f"exceptions that escaped the loop: {crashes}, "
                                  f"monotonic clock {case.get('mono0')} ms, wall clock {case.get('wall0')} ms)"))
+            # ... and no shared memory: whatever the server held must be unlinked (a server SIGKILLed by an injected fault
+            # is the open finding of the real-process stream, not judged here)
+            if teardown is not None:
+                teardown["segs_left"] = bool(shm.segs > 0 and not shm.fault_killed)
+            if shm.segs > 0 and not shm.fault_killed:
+                problems.append(("segments-left-behind", f"the executor has terminated and {shm.segs} shared-memory segments of its shm server remain: "
+                                 f"the server was {teardown and teardown['shm']} when the teardown began (segments held, ms from acknowledging the "
+                                 f"shutdown to its exit) and got {teardown and teardown['shm_calls']} (join timeout in ms / kill); workers at the "
+                                 f"teardown: {teardown and teardown['workers']}, calls on them: {teardown and teardown['calls']}"))
         allacts = [a for o in obs for a in o]
         nterm = sum(1 for a in allacts if a[0] == "ToCtl" and a[1] in ("CExit", "CFailure"))
         if nterm != (1 if E.terminating else 0):
@@ -549,9 +626,21 @@ def act_term(a):
     return a[0]
 
 
-def ev_term(e):
+def stuck_thresholds(teardown):
+    """Net/Executor.v's `Stuck` = has not left when the deadline of the worker phase comes.  The deadline is taken
+    after the last worker was asked; a worker is asked before the workers behind it, and every dead one among
+    those costs the linger: worker i is killed iff it needs more than grace + linger * (dead workers behind i)."""
+    thr = {}
+    if teardown is not None:
+        ws = teardown["workers"]
+        for k, (w, st) in enumerate(ws):
+            thr[w] = GRACE_MS + LINGER_MS * sum(1 for _, st2 in ws[k + 1:] if st2[0] == "exited")
+    return thr
+
+
+def ev_term(e, thr=None):
     """the event as Net/Executor.v sees it; None = invisible to that model (a worker that is busy, but
-    for less than the grace period, is simply alive there)"""
+    leaves before the deadline of the teardown, is simply alive there)"""
     def m_term(m):
         k = m[0]
         return {"seq": lambda: f"MTaskSeq {m[1]}", "ack": lambda: f"MAck {m[1]}", "pub": lambda: f"MPublished {m[1]}",
@@ -564,7 +653,7 @@ def ev_term(e):
     if e[0] in ("wstuck", "wdeaf"):
         return f"EvWorkerStuck {e[1]}"
     if e[0] == "wbusy":
-        return f"EvWorkerStuck {e[1]}" if e[2] > GRACE_MS else None
+        return f"EvWorkerStuck {e[1]}" if e[2] > (thr or {}).get(e[1], GRACE_MS) else None
     if e[0] == "shm":
         return "EvShmDies " + ("Term" if e[1] == "term" else "Kill" if e[1] == "kill" else f"(Code {cZ(e[1])})")
     if e[0] == "ds":
@@ -577,6 +666,17 @@ def tstat_term(t):
             "never": lambda: "TNever"}[t[0]]()
 
 
+def sstat_term(t):
+    return "SGone" if t[0] == "gone" else f"(SHolds {int(t[1])} {cZ(t[2])})"
+
+
+def scall_term(c):
+    return "SKill" if c[0] == "skill" else f"(SJoin {copt(c[1], cZ)})"
+
+
+MODEL_ACTS = ("ToCtl", "ToWorker", "ToData", "SenderAck", "KillWorker", "ShmShutdown", "KillDs")
+
+
 def tcall_term(c):
     if c[0] == "kill":
         return f"TKill {c[1]}"
@@ -586,12 +686,13 @@ def tcall_term(c):
 
 
 def exec_case_term(case, obs, fin, teardown):
-    if any(a[0] == "KillShm" or (a[0] in ("ToCtl", "ToWorker") and str(a[-1]).startswith("?")) for o in obs for a in o):
+    if any(a[0] not in MODEL_ACTS or (a[0] in ("ToCtl", "ToWorker") and str(a[-1]).startswith("?")) for o in obs for a in o):
         return None
     term, walive, salive, dalive, dsets = fin
     evs, eobs, index = [], [], {}
+    thr = stuck_thresholds(teardown)
     for i, (e, o) in enumerate(zip(case["evs"], obs)):
-        t = ev_term(e)
+        t = ev_term(e, thr)
         if t is None:
             continue
         index[i] = len(evs)
@@ -602,7 +703,8 @@ def exec_case_term(case, obs, fin, teardown):
     else:
         td = (f"(Some ({index[teardown['event']]}, {cZ(teardown['mono'])}, "
               f"{clist(teardown['workers'], lambda p: f'({p[0]}, {tstat_term(p[1])})')}, {clist(teardown['calls'], tcall_term)}, "
-              f"{copt(teardown['elapsed'], cZ)}))")
+              f"{copt(teardown['elapsed'], cZ)}, "
+              f"({sstat_term(teardown['shm'])}, {clist(teardown['shm_calls'], scall_term)}, {cbool(teardown['segs_left'])})))")
     return (f"({case['n']}, {clist(case['ns'], str)}, {clist(evs)}, "
             f"{clist(eobs, lambda o: clist(o, act_term))}, "
             f"({cbool(term)}, {clist(walive, cbool)}, {cbool(salive)}, {cbool(dalive)}, {clist(dsets, str)}), {td})")
@@ -878,6 +980,7 @@ CORE = [
 
 # faults under which run() must raise (a busy companion task is only added to those: without a failure a never-ending
 # task is no defect, the run legitimately does not end)
+SWEEP_DELAY_S = 0.3        # how much longer the shm server's at-exit sweep takes in the scenarios that say so (c05_faults.launch_executor)
 BUSY_TASKFAILURE = [("raise", 0)]
 BUSY_EXECFAILURE = [("sigkill", 0), ("osexit", 1), ("sysexit", 0), ("kill_ds", 0), ("term_ds", 0), ("term_shm", 0)]
 
@@ -892,6 +995,7 @@ def scenarios(ctx):
             sc.setdefault("workers", 2)
             sc["shape"] = rng.choice(["", "gout"])
             sc["s_sleep"] = rng.choice([0.0, 0.2])
+            sc["sweep_delay"] = rng.choice([0.0, 0.0, SWEEP_DELAY_S])
             out.append(sc)
         # one seeded extra crash point
         k = rng.choice(["raise", "sysexit", "osexit", "sigkill", "term_ds", "kill_sibling"])
@@ -907,7 +1011,15 @@ def scenarios(ctx):
         flavours = brng.sample(["sleep", "gen"], 2)
         for (k, code), flavour in zip([k1, k2], flavours):
             out.append({"hosts": 1, "workers": 2, "shape": brng.choice(["", "gout"]), "s_sleep": 0.0, "busy": flavour,
+                        "extra": brng.choice([2, 6]), "sweep_delay": SWEEP_DELAY_S,
                         "fault": {"kind": k, "code": code, "site": brng.choice(["s", "c0"]), "point": "before"}})
+        # the teardown meets a wave of dead workers (every undeliverable shutdown request costs the linger of its socket)
+        # on a host that holds datasets in shared memory
+        wrng = ctx.sub_rng("faults-wave")
+        site, point = wrng.choice([("s", "before"), ("g", "between"), ("c0", "before"), ("g", "after")])
+        out.append({"hosts": 1, "workers": wrng.choice([7, 8]), "shape": wrng.choice(["", "gout"]), "s_sleep": 0.0,
+                    "extra": wrng.choice([4, 8]), "sweep_delay": SWEEP_DELAY_S,
+                    "fault": {"kind": "kill_siblings", "code": 0, "site": site, "point": point}})
     else:
         for hosts, workers in [(1, 1), (1, 2), (2, 1), (2, 2)]:
             for kind, code in [("none", 0), ("raise", 0), ("sysexit", 0), ("sysexit", 3), ("osexit", 0), ("osexit", 1), ("sigkill", 0),
@@ -924,7 +1036,13 @@ def scenarios(ctx):
                 for site in ("s", "c0"):
                     out.append({"hosts": hosts, "workers": workers, "shape": rng.choice(["", "gout"]), "s_sleep": 0.0,
                                 "busy": ["sleep", "gen"][(j + (site == "s")) % 2],
+                                "extra": rng.choice([0, 2, 6]), "sweep_delay": rng.choice([0.0, SWEEP_DELAY_S, SWEEP_DELAY_S]),
                                 "fault": {"kind": kind, "code": code, "site": site, "point": "before"}})
+        for hosts, workers in [(1, 3), (1, 6), (1, 7), (1, 8), (2, 7)]:
+            for site, point in [("g", "before"), ("g", "between"), ("g", "after"), ("c0", "before"), ("s", "before")]:
+                out.append({"hosts": hosts, "workers": workers, "shape": rng.choice(["", "gout"]), "s_sleep": 0.0,
+                            "extra": rng.choice([0, 4, 8]), "sweep_delay": rng.choice([0.0, SWEEP_DELAY_S, SWEEP_DELAY_S]),
+                            "fault": {"kind": "kill_siblings", "code": 0, "site": site, "point": point}})
     for i, sc in enumerate(out):
         sc["tag"] = f"v{os.getpid() % 1000:03d}{i:03d}"[:8]
         sc["seed"] = ctx.seed * 1000 + i
@@ -962,7 +1080,7 @@ def run_real(sc, timeout=None):
 def must_raise(sc):
     f = sc["fault"]
     k = f["kind"]
-    if k in ("none", "kill_sibling"):
+    if k in ("none", "kill_sibling", "kill_siblings"):
         return False
     if k in ("raise", "sysexit", "osexit", "sigkill"):
         return not (f.get("site") == "g" and f.get("point") == "after")
@@ -971,7 +1089,9 @@ def must_raise(sc):
 
 def expected_values(sc):
     keys = ["c0.0", "c1.0", "s.0"] + (["g.1"] if sc.get("shape") == "gout" else [])
-    return {k: F.EXPECTED[k] for k in keys}
+    vals = {k: F.EXPECTED[k] for k in keys}
+    vals.update({f"e{i}.0": F.EXTRA_BASE + i for i in range(int(sc.get("extra", 0)))})
+    return vals
 
 
 def judge(sc, o):
@@ -997,7 +1117,7 @@ def judge(sc, o):
 
 
 FK = {"none": "FNone", "raise": "FRaise", "sysexit": "FWorkerExit", "osexit": "FWorkerExit", "sigkill": "FWorkerExit",
-      "kill_ds": "FDs", "term_ds": "FDs", "kill_shm": "FShmKill", "term_shm": "FShmTerm", "kill_sibling": "FSibling"}
+      "kill_ds": "FDs", "term_ds": "FDs", "kill_shm": "FShmKill", "term_shm": "FShmTerm", "kill_sibling": "FSibling", "kill_siblings": "FSibling"}
 
 
 def scenario_term(sc, o):
@@ -1030,6 +1150,10 @@ def run_faults(ctx, res, scs, par):
         res.count("real:" + f["kind"])
         if sc.get("busy"):
             res.count("real:busy-worker-at-teardown:" + ("engaged" if o.get("busy_engaged") else "not-engaged"))
+        if "shm_at_end" in o:
+            res.count("real:segments-held-when-run-ended:" + ("none" if not o["shm_at_end"] else "1-3" if o["shm_at_end"] <= 3 else "4+"))
+        if sc.get("sweep_delay"):
+            res.count("real:slow-shm-sweep")
         if f["kind"] != "none":
             res.nontrivial_keys.add("real:" + key)
         if any(s == "inconclusive" for s, _ in bad):
@@ -1048,7 +1172,7 @@ def run_faults(ctx, res, scs, par):
         meta.append((sc, o))
         if len(res.samples) < 5 and f["kind"] != "none":
             res.samples.append({"stream": "real", "scenario": {k: v for k, v in sc.items() if k not in ("tag", "seed")},
-                                "observation": {k: o.get(k) for k in ("outcome", "exc", "run_s", "exit_s", "procs_left", "shm_left", "busy_engaged") if k in o}})
+                                "observation": {k: o.get(k) for k in ("outcome", "exc", "run_s", "exit_s", "procs_left", "shm_at_end", "shm_left", "busy_engaged") if k in o}})
     res.extra["fault_enumeration"] = counts
     return terms, meta
 
@@ -1056,15 +1180,17 @@ def run_faults(ctx, res, scs, par):
 # ============================================================================ run
 def run(ctx, res):
     res.rule = ("A: histories of 2..8 events (message batches of 0..4 messages over the 8 message classes, worker/shm/data-server deaths with "
-                "codes 0/1/3/-9/-15, workers stuck / busy for 1 ms..1 h / unreachable, shm server dying under the shutdown request) on 1..4 "
-                "workers, clock epochs varied; a third of the histories end the executor while some worker will not leave at once; "
+                "codes 0/1/3/-9/-15, workers stuck / busy for 1 ms..1 h / unreachable, shm server dying under the shutdown request) on "
+                "1..8 workers, clock epochs varied; 40% of the histories end the executor while some worker will not leave at once or a wave of "
+                "workers is dead; the shm server holds 0..200 segments and needs 0 ms..7 s from acknowledging its shutdown to its exit; "
                 "non-trivial = contains a fault or a failure message followed by a loop iteration. B: sequences of 1..4 tasks (1..3 outputs; ok/raise/sys.exit at a chosen yield); non-trivial = some task fails. "
                 "C: 0..5 batches over 9 message classes on 1..3 hosts; non-trivial = contains an event or a shutdown reason. "
                 "D: real clusters with one injected fault, some with a companion task that never ends once the fault is armed (the teardown "
-                "meets a worker that does not read its shutdown request); non-trivial = a fault was injected. distinct = distinct canonical case")
+                "meets a worker that does not read its shutdown request) or a wave of dead workers on a 7..8-worker host, on hosts holding "
+                "extra datasets in shared memory behind a shm server with a slow sweep; non-trivial = a fault was injected. distinct = distinct canonical case")
     # ---- D first (it is the slow one): start it in a thread, do A-C meanwhile
     scs = scenarios(ctx)
-    scs.sort(key=lambda sc: 0 if sc.get("busy") else 1)      # the long ones (grace period) first
+    scs.sort(key=lambda sc: 0 if sc.get("busy") or sc["fault"]["kind"] == "kill_siblings" else 1)      # the long ones (grace period, lingers) first
     par = 4
     box = {}
 
